@@ -81,7 +81,7 @@ func TestVerifC20WatchBursts(t *testing.T) {
 				w.logf("up")
 				w.notify(false) // trigger a reload, then burst while it is in progress
 				sentOK++
-				w.waitFor(func() bool { return w.col.GetState() != StateRunning }, 50*time.Millisecond)
+				w.waitBriefly(func() bool { return w.col.GetState() != StateRunning }, 50*time.Millisecond)
 			}
 			if fail != "" {
 				break
@@ -99,14 +99,12 @@ func TestVerifC20WatchBursts(t *testing.T) {
 		}
 		if fail == "" && sentErr > 0 {
 			// some notification carried an error: the collector must stop by itself
-			select {
-			case <-w.runDone:
-			case <-time.After(watchdog):
+			if !v20WaitDone(w.runDone, watchdog) {
 				w.logf("wedged")
 				out.Linef("viol sig=C20/runloop/watch-error-notification-lost %d error and %d change notification(s) were sent by provider goroutines (%s); state=%s, Run has not returned within %s",
 					sentErr, sentOK, desc, w.col.GetState(), watchdog)
 				fail = "lost-error"
-			}
+		}
 		} else if fail == "" {
 			// only changes: all of them must be consumed, then the collector idles Running; then Shutdown()
 			if !w.waitFor(func() bool {
@@ -117,13 +115,11 @@ func TestVerifC20WatchBursts(t *testing.T) {
 				fail = "stuck-change"
 			}
 			w.callShutdown(1)
-			select {
-			case <-w.runDone:
-			case <-time.After(watchdog):
+			if !v20WaitDone(w.runDone, watchdog) {
 				w.logf("wedged")
 				out.Linef("viol sig=C20/harness/race-run-did-not-return state=%s", w.col.GetState())
 				fail = "no-return"
-			}
+		}
 		}
 		if fail == "" {
 			w.mu.Lock()
@@ -151,6 +147,7 @@ func TestVerifC20WatchBursts(t *testing.T) {
 		out.Linef("stat burst_reloads %d", reloads-1)
 		out.Linef("stat burst_senders_panicked_at_provider_shutdown %d", w.watchPanic.Load())
 		out.Linef("nt")
+		v20EmitRetries(out)
 		out.Linef("end")
 		out.Flush()
 	}
